@@ -136,14 +136,31 @@ pub fn generate(tape: &[u8]) -> AsyncProgram {
                 s.push_str(&format!("  return '{tag}done';\n}})();\n"));
                 let calls = 1 + t.below(5);
                 for i in 0..calls {
-                    match t.below(6) {
+                    // a request is made either synchronously or from a later microtask tick (so it can arrive while
+                    // the generator is running, suspended, or draining its queue behind an awaited return)
+                    let ticks = if t.chance(90) { 1 + t.below(4) } else { 0 };
+                    let call = match t.below(6) {
                         // (return() during `yield*` over a sync iterable: same ES2024 vs node-20 difference)
-                        0 if !has_yield_star => s.push_str(&format!("{tag}g.return('{tag}early').then(ok('{tag}.r{i}'), er('{tag}.r{i}'));\n")),
+                        0 if !has_yield_star => {
+                            let arg = if t.bool() { format!("'{tag}early'") } else { value(&mut t, &format!("{tag}.ra{i}"), &mut labels, &mut special) };
+                            format!("{tag}g.return({arg}).then(ok('{tag}.r{i}'), er('{tag}.r{i}'));")
+                        }
                         // throw() while suspended in `yield*` over a sync iterable without a throw method:
                         // ES2024 closes the iterator and rejects with a TypeError, V8 in node 20 still
                         // forwards the value; the reference cannot be used there
-                        1 if !has_yield_star => s.push_str(&format!("{tag}g.throw('{tag}thrown').then(ok('{tag}.t{i}'), er('{tag}.t{i}'));\n")),
-                        _ => s.push_str(&format!("{tag}g.next('{tag}in{i}').then(ok('{tag}.n{i}'), er('{tag}.n{i}'));\n")),
+                        1 if !has_yield_star => format!("{tag}g.throw('{tag}thrown').then(ok('{tag}.t{i}'), er('{tag}.t{i}'));"),
+                        _ => format!("{tag}g.next('{tag}in{i}').then(ok('{tag}.n{i}'), er('{tag}.n{i}'));"),
+                    };
+                    if ticks == 0 {
+                        s.push_str(&call);
+                        s.push('\n');
+                    } else {
+                        lab("asyncgen-late-request", &mut labels);
+                        s.push_str("Promise.resolve()");
+                        for _ in 1..ticks {
+                            s.push_str(".then(function () {})");
+                        }
+                        s.push_str(&format!(".then(function () {{ print('{tag} late{i}'); {call} }});\n"));
                     }
                 }
                 lab("async-generator", &mut labels);
